@@ -62,7 +62,9 @@ GsHandle == /\ gsAlive /\ gsQ # <<>>
                        /\ inbox' = IF m.k = "call" /\ m.mode = "reply" THEN Deliver(m.from, Msg("reply", m.ref, "gs")) ELSE inbox
             /\ UNCHANGED <<geQ, installed, gen, seen, nextRef, nops, hist>>
 \* ---- clients -> gen_event
-Acts == {"ok", "remove", "swap", "fail"}
+\* swapfail: the handler asks to be swapped for a replacement whose init fails
+Acts == {"ok", "remove", "swap", "fail", "swapfail"}
+CallModes == {"reply", "remove", "swap", "fail", "swapfail"}
 GeSend(m, o) == /\ Budget /\ Op(o) /\ geQ' = Append(geQ, m)
                 /\ UNCHANGED <<gsAlive, gsQ, gsLog, installed, gen, seen, inbox>>
 GeNotify(act, sync, f) == /\ GeSend([k |-> "notify", n |-> nextRef, act |-> act, sync |-> sync, from |-> f],
@@ -70,7 +72,7 @@ GeNotify(act, sync, f) == /\ GeSend([k |-> "notify", n |-> nextRef, act |-> act,
 GeCall(f, h, mode) == /\ GeSend([k |-> "call", from |-> f, ref |-> nextRef, h |-> h, mode |-> mode], <<"ge_call", f, nextRef, <<h, mode>>>>) /\ nextRef' = nextRef + 1
 GeWhich(f) == /\ GeSend([k |-> "which", from |-> f, ref |-> nextRef], <<"ge_which", f, nextRef, "">>) /\ nextRef' = nextRef + 1
 GeInfo == /\ GeSend([k |-> "info", n |-> nextRef], <<"ge_info", "", nextRef, "">>) /\ nextRef' = nextRef + 1
-After(h, a) == IF a \in {"remove", "fail"} THEN "gone" ELSE IF a = "swap" THEN "swapped" ELSE "same"
+After(h, a) == IF a \in {"remove", "fail", "swapfail"} THEN "gone" ELSE IF a = "swap" THEN "swapped" ELSE "same"
 GeHandle == /\ geQ # <<>> /\ geQ' = Tail(geQ)
             /\ LET m == Head(geQ) IN
                CASE m.k = "notify" ->
@@ -82,8 +84,9 @@ GeHandle == /\ geQ # <<>> /\ geQ' = Tail(geQ)
                       IF m.h \in installed
                       THEN /\ seen' = [seen EXCEPT ![m.h] = Append(@, <<"call", gen[m.h], m.ref>>)]
                            /\ installed' = IF m.mode \in {"remove", "fail"} THEN installed \ {m.h} ELSE installed
-                           /\ gen' = IF m.mode = "swap" THEN [gen EXCEPT ![m.h] = @ + 1] ELSE gen
-                           /\ inbox' = Deliver(m.from, Msg("reply", m.ref, IF m.mode = "fail" THEN "error" ELSE "ge"))
+                           \* (as coded, a replacement whose init fails stays installed under the id; the call is answered with error)
+                           /\ gen' = IF m.mode \in {"swap", "swapfail"} THEN [gen EXCEPT ![m.h] = @ + 1] ELSE gen
+                           /\ inbox' = Deliver(m.from, Msg("reply", m.ref, IF m.mode \in {"fail", "swapfail"} THEN "error" ELSE "ge"))
                       ELSE /\ inbox' = (IF ErrorReplyOnMissing THEN Deliver(m.from, Msg("reply", m.ref, "error")) ELSE inbox) /\ UNCHANGED <<seen, installed, gen>>
                  [] m.k = "which" -> /\ inbox' = Deliver(m.from, [t |-> "which", ref |-> m.ref, v |-> "ids", ids |-> installed]) /\ UNCHANGED <<seen, installed, gen>>
                  [] OTHER -> /\ seen' = [h \in Handlers |-> IF h \in installed THEN Append(seen[h], <<"info", gen[h], m.n>>) ELSE seen[h]]
@@ -93,7 +96,7 @@ Step == \/ \E f \in Froms, mode \in GsModes : GsCall(f, mode)
         \/ GsCast \/ GsInfo \/ GsBadCall \/ GsHandle
         \/ \E act \in [Handlers -> Acts] : GeNotify(act, FALSE, Ghost)
         \/ \E act \in [Handlers -> {"ok", "remove"}], f \in Froms : GeNotify(act, TRUE, f)
-        \/ \E f \in Froms, h \in Handlers, mode \in {"reply", "remove", "swap", "fail"} : GeCall(f, h, mode)
+        \/ \E f \in Froms, h \in Handlers, mode \in CallModes : GeCall(f, h, mode)
         \/ \E f \in Froms : GeWhich(f)
         \/ GeInfo \/ GeHandle
 Next == Step /\ UNCHANGED initial
